@@ -468,32 +468,59 @@ Definition time_from_string (s : text) : option tod := parse_time s.
 Definition date_from_string (e : env) (s : text) : option date :=
   match parse_date e s with Some (d, _) => Some d | None => None end.
 
+(* the last step of DateTimeFromString: time.Date in the environment's zone, and when Go answers a skipped wall clock
+   time with an EARLIER one (the zone is west of UTC; the answer can lie on the previous day) the first instant after
+   the gap instead: the end of the zone period of Go's answer (Time.ZoneBounds; [zend] = None when the period has no
+   end), with no sub-second part *)
+Definition combine (offset : Z -> Z) (zend : Z -> option Z) (w ns : Z) : Z :=
+  let p := from_wall offset w in
+  if p + offset p <? w
+  then match zend p with Some e => e * giga | None => p * giga + ns end
+  else p * giga + ns.
+
 (* DateTimeFromString(env, str, fillTime): the instant.  [fill] is the time of day used when the text has a date but
    no time: 00:00:00 for fillTime = false (ToXDateTime), the current time of day in the environment's zone for
    fillTime = true (ToXDateTimeWithTimeFill, used by FieldValues.Parse) *)
-Definition datetime_from_string_with (fill : tod) (offset : Z -> Z) (e : env) (s : text) : option Z :=
+Definition datetime_from_string_src (fill : tod) (offset : Z -> Z) (zend : Z -> option Z) (e : env) (s : text)
+  : option (Z * bool) :=     (* the instant, and whether it was built in the environment's zone (not an ISO text) *)
   let s := trim_dt s in
   match parse_iso_layout true s with
-  | Some t => Some t
+  | Some t => Some (t, false)
   | None =>
     match parse_iso_layout false s with
-    | Some t => Some t
+    | Some t => Some (t, false)
     | None =>
       match parse_date e s with
       | None => None
       | Some ((y, m, d), rest) =>
           let t := match parse_time rest with Some t => t | None => fill end in
-          Some (from_wall offset (wall_of y m d (t_hour t) (t_min t) (t_sec t)) * giga + t_ns t)
+          Some (combine offset zend (wall_of y m d (t_hour t) (t_min t) (t_sec t)) (t_ns t), true)
       end
     end
   end.
 
-Definition datetime_from_string : (Z -> Z) -> env -> text -> option Z := datetime_from_string_with (Tod 0 0 0 0).
+Definition datetime_from_string_with (fill : tod) (offset : Z -> Z) (zend : Z -> option Z) (e : env) (s : text) : option Z :=
+  match datetime_from_string_src fill offset zend e s with Some (t, _) => Some t | None => None end.
+
+Definition datetime_from_string : (Z -> Z) -> (Z -> option Z) -> env -> text -> option Z :=
+  datetime_from_string_with (Tod 0 0 0 0).
+
+(* a datetime as it is once marshalled (dates.FormatISO: microseconds, zone offset in whole minutes) and read back:
+   what FieldValues.Parse keeps (asStored).  [off] is the offset of the value's zone at the instant. *)
+Definition sec_part (off : Z) : Z := off - 60 * Z.quot off 60.
+Definition as_stored (off t : Z) : Z := t - t mod 1000 + sec_part off * giga.
 
 (* flows/field.go FieldValues.Parse: the typed values stored beside the text of a contact field value
-   (None = empty text, no value at all); locations are not modelled *)
-Definition field_parse (fill : tod) (offset : Z -> Z) (e : env) (raw : text) : option (option dec * option Z) :=
+   (None = empty text, no value at all); locations are not modelled.  A datetime read from an ISO text carries the
+   offset written in the text (whole minutes), one read in an environment format the environment's zone. *)
+Definition field_parse (fill : tod) (offset : Z -> Z) (zend : Z -> option Z) (e : env) (raw : text)
+  : option (option dec * option Z) :=
   match raw with
   | [] => None
-  | _ => Some (parse_number raw, datetime_from_string_with fill offset e raw)
+  | _ => Some (parse_number raw,
+               match datetime_from_string_src fill offset zend e raw with
+               | Some (t, true) => Some (as_stored (offset (unix_of t)) t)
+               | Some (t, false) => Some (as_stored 0 t)
+               | None => None
+               end)
   end.
